@@ -600,29 +600,32 @@ def singleNestExpr (lhs : Rep) (attr : String) : Res :=
     if isTrue lhs && !relAttrs.contains attr then .err
     else singleAttrNest lhs relAttrs attr
 
+/-- the row `t` cannot be unnested: its `attr` is not a set of tuples that merge with the rest of `t` -/
+def unnestBad (attr : String) (t : V) : Bool :=
+  match get attr (tupOf t) with
+  | some (.set xs) =>
+    xs.any fun s => match s with
+      | .tup _ => (mergeT (V.mkTup ((tupOf t).filter fun p => p.1 ≠ attr)) s).isNone
+      | _ => true
+  | _ => true
+
+/-- the reducer of `Unnest`: every member of `t.attr` merged with `t` without `attr` -/
+def unnestGroup (attr : String) (k : Option V) (_tuples : List V) : List (Option V) :=
+  match k with
+  | none => [none]
+  | some t =>
+    match get attr (tupOf t) with
+    | some (.set xs) => xs.map fun s => mergeT (V.mkTup ((tupOf t).filter fun p => p.1 ≠ attr)) s
+    | _ => [none]
+
 /-- `Unnest` (as repaired: ill-typed rows are an error) -/
 def unnest (a : Rep) (attr : String) : Res :=
   match relationAttrs a with
   | none => .err
   | some key =>
     if !key.contains attr then .err
-    else
-      let bad := (enumerate a).any fun t =>
-        match get attr (tupOf t) with
-        | some (.set xs) =>
-          xs.any fun s => match s with
-            | .tup _ => (mergeT (V.mkTup ((tupOf t).filter fun p => p.1 ≠ attr)) s).isNone
-            | _ => true
-        | _ => true
-      if bad then .err
-      else finish (reduce (enumerate a) (projectT key) fun k _ =>
-        match k with
-        | none => [none]
-        | some t =>
-          let rest := V.mkTup ((tupOf t).filter fun p => p.1 ≠ attr)
-          match get attr (tupOf t) with
-          | some (.set xs) => xs.map fun s => mergeT rest s
-          | _ => [none])
+    else if (enumerate a).any (unnestBad attr) then .err
+    else finish (reduce (enumerate a) (projectT key) (unnestGroup attr))
 
 def unnestExpr (lhs : Rep) (attr : String) : Res :=
   if !isTrue lhs then .ok lhs else unnest lhs attr
